@@ -720,3 +720,81 @@ Qed.
 Theorem generate_bash_deterministic c1 c2 b1 b2 :
   c1 = c2 -> b1 = b2 -> generate_bash c1 b1 = generate_bash c2 b2.
 Proof. intros -> ->. reflexivity. Qed.
+
+(** ---- the whole function: what is offered for a partial word ---- *)
+Lemma filter_nonempty_all (l : list bytes) :
+  Forall (fun w => w <> []) l -> filter (fun w => negb (is_nil w)) l = l.
+Proof.
+  induction 1 as [|w l Hw Hl IH]; [reflexivity|]. simpl. destruct w; [contradiction|]. simpl. rewrite IH. reflexivity.
+Qed.
+
+Lemma cword_level {A} (w0 : A) ws cur :
+  N.of_nat (List.length ((w0 :: ws) ++ [cur])) - 1 = N.of_nat (S (List.length ws)).
+Proof.
+  rewrite app_length. cbn [List.length]. rewrite Nat.add_1_r, !Nat2N.inj_succ. lia.
+Qed.
+
+Lemma step_stays c root_bin w0 ns n ws cur :
+  mangle_safe c root_bin -> reach c ws ns n ->
+  (forall sc, In sc (c_subs n) -> ~ In cur (sc_words sc)) ->
+  step (mangle root_bin) w0 (transitions c (mangle root_bin)) (fn_of (mangle root_bin) ns) cur =
+  fn_of (mangle root_bin) ns.
+Proof.
+  intros Hm Hr Hcur. unfold step.
+  pose proof (reach_node_at _ _ _ _ Hr (mangle root_bin)) as Hnode.
+  assert (Hne : is_nil (fn_of (mangle root_bin) ns) = false).
+  { destruct (node_at_prefix _ _ _ _ Hnode) as [s0 ->].
+    pose proof (mangle_nonempty _ (ms_root_ne _ _ Hm)) as Hr0. destruct (mangle root_bin); [contradiction|reflexivity]. }
+  rewrite Hne. simpl.
+  destruct (find _ (transitions c (mangle root_bin))) as [e|] eqn:Ef; [|reflexivity].
+  exfalso. apply find_some in Ef. destruct Ef as [Hin Hpr].
+  apply andb_true_iff in Hpr. destruct Hpr as [H1 H2]. apply beq_eq in H1. apply beq_eq in H2.
+  unfold transitions in Hin. apply sort_in in Hin. apply transitions_entries in Hin.
+  destruct Hin as (pf & p & child & Hn & Hc & Hw & Hp & _).
+  rewrite H1 in Hp. subst pf. assert (p = n) by (eapply (ms_inj _ _ Hm); eauto). subst p.
+  rewrite H2 in Hw. exact (Hcur child Hc Hw).
+Qed.
+
+(** C16_bash_complete: called with the words of a subcommand path (names or visible aliases) followed
+    by a partial word that is not itself a word of a child of the addressed command, the function
+    replies exactly the words of the addressed level that start with the partial word *)
+Theorem bash_complete_spec c root_bin t w0 ws ns n cur :
+  c_bin c = Some root_bin -> linked c -> mangle_safe c root_bin -> bash_table c = Some t ->
+  reach c ws ns n -> w0 <> [] -> Forall (fun w => w <> []) ws ->
+  (forall sc, In sc (c_subs n) -> ~ In cur (sc_words sc)) ->
+  exists l, opts_tokens n = Some l /\ bash_complete t (w0 :: ws ++ [cur]) = Some (compgen_W l cur).
+Proof.
+  intros Hb Hl Hm Ht Hr Hw0 Hws Hcur.
+  destruct (bash_case c root_bin t ws ns n Hb Hl Hm Ht Hr) as (k & Hlook & Hopts & _ & Hlevel).
+  destruct (bash_table_shape c root_bin t Hb Ht) as (Hlab & Htr).
+  exists (k_opts k). split; [exact Hopts|]. unfold bash_complete.
+  change (w0 :: ws ++ [cur]) with ((w0 :: ws) ++ [cur]).
+  rewrite last_last.
+  assert (Hstate : run_state t ((w0 :: ws) ++ [cur]) = fn_of (mangle root_bin) ns).
+  { unfold run_state. rewrite Hlab, Htr. rewrite filter_app.
+    rewrite (filter_nonempty_all (w0 :: ws)) by (constructor; assumption).
+    rewrite fold_left_app. cbn [app hd].
+    change (match (w0 :: ws) ++ [cur] with w :: _ => w | [] => [] end) with w0.
+    match goal with |- fold_left _ _ ?st = _ => set (st0 := st) end.
+    assert (Hst : st0 = fn_of (mangle root_bin) ns) by (apply (bash_reaches c root_bin w0 ws ns n Hm Hr)).
+    rewrite Hst. clear st0 Hst.
+    cbn [filter]. destruct (is_nil cur); cbn [negb fold_left]; [reflexivity|].
+    apply (step_stays c root_bin w0 ns n ws cur Hm Hr Hcur). }
+  rewrite Hstate, Hlook.
+  assert (Hcw : (N.of_nat (List.length ((w0 :: ws) ++ [cur])) - 1 =? k_level k) = true).
+  { rewrite Hlevel, <- (reach_lengths _ _ _ _ Hr). apply N.eqb_eq. apply cword_level. }
+  match goal with |- context [N.eqb ?a ?b] => replace (N.eqb a b) with true by (symmetry; exact Hcw) end.
+  rewrite orb_true_r. reflexivity.
+Qed.
+
+(** without the side condition on the partial word the statement is false of the script (finding
+    bash-cur-is-subcommand): with children [s] and [sx], the partial word [s] is answered with nothing *)
+Definition cur_tree : cmd :=
+  mkCmd [112] [] []
+    [mkCmd [115] [] [] [] (Some [112; 32; 115]) false false sets0 sets0;
+     mkCmd [115; 120] [] [] [] (Some [112; 32; 115; 120]) false false sets0 sets0]
+    (Some [112]) false false sets0 sets0.
+Lemma bash_cur_is_subcommand_refuted :
+  exists t l, bash_table cur_tree = Some t /\ opts_tokens cur_tree = Some l /\
+              compgen_W l [115] = [[115]; [115; 120]] /\ bash_complete t [[112]; [115]] = Some [].
+Proof. eexists; eexists. repeat split; vm_compute; reflexivity. Qed.
